@@ -399,6 +399,10 @@ func Generate(r *rand.Rand, g GenOpts) []*GFile {
 		if r.Intn(4) == 0 {
 			f.Env = append(f.Env, KV{"E", fmt.Sprintf("e%d", i)})
 		}
+		if g.Mode == "c09" && r.Intn(3) == 0 {
+			// a dynamic variable: Vars.Merge stamps the include's dir on it (its working directory)
+			f.Vars = append(f.Vars, KV{"DYN", OM{{"sh", fmt.Sprintf("echo dyn%d", i)}}})
+		}
 		if r.Intn(10) == 0 {
 			f.Output = []string{"prefixed", "group"}[r.Intn(2)]
 		}
@@ -557,4 +561,91 @@ func sortedCopy(ss []string) []string {
 	c := append([]string(nil), ss...)
 	sort.Strings(c)
 	return c
+}
+
+// ---- small-scope exhaustive enumeration (thorough tier) ----
+
+// EnumSmallCount: 5 shapes x 22 option pairs (21 + none) on the first include x 8 options on the second x 2 reference styles.
+const EnumSmallCount = 5 * 22 * 8 * 2
+
+// EnumSmall builds the k-th tree of the enumeration: at most 3 files over the task alphabet {default, a}
+// (+ `root` in the root file), every pair of include options on the first include statement.
+func EnumSmall(k int, r *rand.Rand) []*GFile {
+	shape := k % 5
+	k /= 5
+	pair := k % 22
+	k /= 22
+	second := k % 8
+	k /= 8
+	rootrefs := k%2 == 1
+
+	mk := func(path string, isRoot bool) *GFile {
+		f := &GFile{Path: path, Version: "3"}
+		names := []string{"default", "a"}
+		if isRoot {
+			names = append(names, "root")
+		}
+		for i, n := range names {
+			t := GTask{Name: n, Cmds: []GCmd{{Shell: marker(path, n)}}}
+			if n == "a" {
+				t.Cmds = append(t.Cmds, GCmd{Task: "default"})
+				t.Attrs = OM{{"aliases", []string{"al"}}}
+			}
+			if n == "default" && !isRoot && rootrefs {
+				t.Deps = append(t.Deps, GCmd{Task: ":root"})
+			}
+			_ = i
+			f.Tasks = append(f.Tasks, t)
+		}
+		f.Vars = OM{{"SHARED", "s-" + path}}
+		return f
+	}
+	root := mk("Taskfile.yml", true)
+	b := mk("b/Taskfile.yml", false)
+	c := mk("b/c/Taskfile.yml", false)
+	files := []*GFile{root, b}
+	var incs []*GInclude
+	add := func(p *GFile, ns, tf string) {
+		p.Includes = append(p.Includes, GInclude{NS: ns, Taskfile: tf})
+	}
+	switch shape {
+	case 0: // chain root -> b -> c
+		add(root, "n1", "./b")
+		add(b, "n2", "./c")
+		files = append(files, c)
+		incs = []*GInclude{&root.Includes[0], &b.Includes[0]}
+	case 1: // siblings
+		add(root, "n1", "./b")
+		add(root, "n2", "./b/c")
+		files = append(files, c)
+		incs = []*GInclude{&root.Includes[0], &root.Includes[1]}
+	case 2: // diamond
+		add(root, "n1", "./b")
+		add(root, "n2", "./b/c")
+		add(b, "n3", "./c")
+		files = append(files, c)
+		incs = []*GInclude{&root.Includes[0], &b.Includes[0]}
+	case 3: // the same file twice
+		add(root, "n1", "./b")
+		add(root, "n2", "./b")
+		incs = []*GInclude{&root.Includes[0], &root.Includes[1]}
+	case 4: // single include
+		add(root, "n1", "./b/Taskfile.yml")
+		incs = []*GInclude{&root.Includes[0]}
+	}
+	tasksOf := []string{"default", "a"}
+	idx := 0
+	for a := 0; a < len(incOpts); a++ {
+		for bb := a + 1; bb < len(incOpts); bb++ {
+			if idx == pair {
+				applyOpt(r, incs[0], incOpts[a], tasksOf)
+				applyOpt(r, incs[0], incOpts[bb], tasksOf)
+			}
+			idx++
+		}
+	}
+	if second > 0 && len(incs) > 1 {
+		applyOpt(r, incs[1], incOpts[second-1], tasksOf)
+	}
+	return files
 }
